@@ -32,9 +32,13 @@ import time
 import traceback
 
 VERIF = os.path.dirname(os.path.dirname(os.path.abspath(__file__)))
-OUT = os.path.join(VERIF, "out")
+# (VERIF_OUT redirects evidence and replays of mutant sweeps / self-tests so
+# that they never overwrite the evidence of the real tree)
+_ALT = os.environ.get("VERIF_OUT")
+OUT = _ALT or os.path.join(VERIF, "out")
 REPLAYS = os.path.join(OUT, "replays")
-EVIDENCE = os.path.join(VERIF, "evidence")
+EVIDENCE = os.path.join(_ALT, "evidence") if _ALT else os.path.join(
+    VERIF, "evidence")
 KNOWN = os.path.join(VERIF, "known_findings.json")
 
 
